@@ -15,6 +15,11 @@ pub enum Ev {
 }
 
 /// per-call transfer limits and pending pattern, cycled
+/// the error kinds an injected fault may carry: a failing stream reports its failure in many ways (a dropped connection
+/// typically as UnexpectedEof or BrokenPipe).  Interrupted is left out: by contract it asks for a retry.
+pub const FAULT_KINDS: [io::ErrorKind; 6] =
+    [io::ErrorKind::Other, io::ErrorKind::UnexpectedEof, io::ErrorKind::BrokenPipe, io::ErrorKind::InvalidData, io::ErrorKind::TimedOut, io::ErrorKind::NotFound];
+
 #[derive(Clone, Debug, Default)]
 pub struct Schedule {
     pub chunks: Vec<usize>, // each >= 1; empty = unlimited
@@ -29,6 +34,7 @@ pub struct Core {
     pub ops: usize,               // number of stream operations issued so far
     pub fail_from: Option<usize>, // operations with index >= this fail
     pub fail_at: Option<usize>,   // the operation with exactly this index fails (transient fault)
+    pub fail_kind: usize,         // which io::ErrorKind an injected fault carries (index into FAULT_KINDS)
     pub sched: Schedule,
     pub calls: usize,
     pub pend_calls: usize,
@@ -44,11 +50,12 @@ impl Core {
     fn fault(&mut self) -> io::Result<()> {
         let k = self.ops;
         self.ops += 1;
+        let kind = FAULT_KINDS[self.fail_kind % FAULT_KINDS.len()];
         if self.fail_at == Some(k) {
-            return Err(io::Error::new(io::ErrorKind::Other, "injected transient fault"));
+            return Err(io::Error::new(kind, "injected transient fault"));
         }
         match self.fail_from {
-            Some(f) if k >= f => Err(io::Error::new(io::ErrorKind::Other, "injected fault")),
+            Some(f) if k >= f => Err(io::Error::new(kind, "injected fault")),
             _ => Ok(()),
         }
     }
